@@ -157,7 +157,7 @@ class TravelCalculator:
             from_position=self._last_known_position,
             to_position=self._travel_to_position,
         )
-        if time.time() > self._last_known_position_timestamp + remaining_travel_time:
+        if time.time() >= self._last_known_position_timestamp + remaining_travel_time:
             return self._travel_to_position
 
         progress = (
